@@ -319,7 +319,7 @@ def replay(ctx, case):
 
 def verbatim_doc(rng):
     """verbatim blocks inside containers at every column offset, tabs around markers, blank lines inside code, EOF shapes"""
-    pre = rng.choice(["", "", "> ", ">", ">\t", "- ", "-\t", "1. ", "10) ", "   ", " ", "  ", "> - ", "- > ", ">> ", "*   ", "+    ", "\t"])
+    pre = rng.choice(["", "", "> ", ">", ">\t", "- ", "-\t", "1. ", "10) ", "   ", " ", "  ", "> - ", "- > ", ">> ", "*   ", "+    ", "\t", "* + ", "- 1. ", "* 2) ", "- + ", "1. - "])
     cont = re.sub(r"[^>\t ]", " ", pre) if not pre.strip().startswith(">") else pre
     if pre.strip() in ("> -", "- >"):
         cont = "> " + "  " if pre.startswith(">") else "  > "
@@ -353,7 +353,7 @@ def verbatim_doc(rng):
         for j, s in enumerate(sub):
             out.append((pre if (i == 0 and j == 0) else cont) + s)
     tail = rng.choice(["\n", "", "\n\n", "\nafter\n"])
-    head = rng.choice(["", "", "para\n\n", "# h\n"])
+    head = rng.choice(["", "", "para\n\n", "# h\n", "\ufeff", "\ufeff", "\u200b\n"])
     return head + "\n".join(out) + tail
 
 
